@@ -176,7 +176,7 @@ template <class T> static void check_iround_wrap(pbt::Ctx& c, T x) {
 		const bool even = refc::iseven(n);
 		W exact = even ? (W)r : (W)1 - (W)r;
 		W e = (W)got - exact; if (e < 0) e = -e;
-		if (e != 0) c.metric("mirrorRepeat err/tol", (double)(e / tol));
+		if (e != 0) c.metric("mirrorRepeat err/tol", (double)(e / tol) < 1e300 ? (double)(e / tol) : 1e300);
 		if (!(e <= tol)) FAILK(c, "mirrorRepeat", T, k, "mirrorRepeat(%a)=%a, GL mirrored-repeat coordinate %.17g", (double)x, (double)got, (double)exact);
 		if (!(got >= T(0) && got <= T(1))) FAILK(c, "mirrorRepeat-range", T, k, "mirrorRepeat(%a)=%a outside [0,1]", (double)x, (double)got);
 		if (a >= T(1) && r != T(0)) { nt = true; c.cls(even ? "mirror:even-period" : "mirror:odd-period"); }
